@@ -3,8 +3,10 @@
 P=$1; shift
 cd /repo && git checkout -q -- . && git apply "$P" || { echo "patch does not apply"; exit 2; }
 cd /verif
+rm -rf build/evidence.keep && cp -r evidence build/evidence.keep
 for p in "$@"; do
   out=$(timeout 1500 bin/vcheck $p --quick 2>/dev/null | tail -1)
   echo "$p: $out"
 done
 git -C /repo checkout -q -- .
+rm -rf evidence && cp -r build/evidence.keep evidence
